@@ -81,7 +81,8 @@ IsGroups(g, vv, ids) ==
 IsUnique(u, vv) == StrictlyIncreasing(u) /\ SeqSet(u) = {x \in SeqSet(vv) : x >= 0}
 \* (-1, "no channel / unclustered", is kept as -1)
 IsIndexOf(out, arr, lk) == Len(out) = Len(arr) /\ \A i \in 1..Len(arr) :
-                              IF arr[i] = -1 THEN out[i] = -1 ELSE lk[out[i] + 1] = arr[i]
+                              IF arr[i] = -1 THEN out[i] = -1
+                              ELSE out[i] + 1 \in 1..Len(lk) /\ lk[out[i] + 1] = arr[i]   \* total on any logged output
 IsInClusters(out, vv, req) == StrictlyIncreasing(out) /\ SeqSet(out) = {i - 1 : i \in {j \in 1..Len(vv) : vv[j] \in SeqSet(req)}}
 IsFlatten(out, g) == StrictlyIncreasing(out) /\ SeqSet(out) = UNION {SeqSet(g[k][2]) : k \in 1..Len(g)}
 IsMean(m, w, vv) == LET u == SortSet({x \in SeqSet(vv) : x >= 0}) IN
